@@ -1,5 +1,5 @@
 (* C02/Check.v — per-step, per-parameter comparison of the implementation with the model. *)
-From Precond Require Import Base.PyLib Base.QMat C06.Records C06.Ref C09.Check C02.Model.
+From Precond Require Import Base.PyLib Base.QMat Base.PyFloat C06.Records C06.Ref C09.Check C02.Records C02.Ref C02.Model.
 Open Scope Q_scope.
 
 Definition vclose_rel (tol : Q) (a b : vec) : bool :=
@@ -9,7 +9,18 @@ Definition mclose_rel (tol : Q) (A B : mat) : bool :=
 
 (* 0 ok; 1 statistics; 2 update; 3 diagonal statistics; 4 diagonal momentum; 5 momentum;
    6 number of statistics / preconditioners differs from the announced count *)
-Definition chk_leaf (tol : Q) (c : cfg) (step : Z) (shape : list Z) (param grad : vec)
+Record pstate := mkps { s_diag : vec; s_dmom : vec; s_mom : vec }.
+
+(* the translated _transform_grad applied to a configuration record *)
+Definition transform (c : cfg) (eps : Q) (step : Z) (skip : bool) (param grad pg : vec) (s : pstate)
+  : vec * pstate :=
+  let '(u, ps) := transform_grad (c_graft c) (c_beta1 c) (c_beta2 c) (c_lr c) (c_wd c)
+                    (c_decoupled_wd c) (c_decoupled_lr c) (c_nesterov c) (c_moving_avg c)
+                    (c_diag_eps c) (c_start c) 0 eps step skip param grad pg
+                    (s_diag s) (s_dmom s) (s_mom s) in
+  (u, mkps (ps_diag ps) (ps_dmom ps) (ps_mom ps)).
+
+Definition chk_leaf (tol eps : Q) (c : cfg) (step : Z) (shape : list Z) (param grad : vec)
            (stats_b : list mat) (sb : pstate)
            (stats_a preconds_a : list mat) (sa : pstate) (upd : vec) : Z :=
   let skip := skip_precond c shape in
@@ -33,7 +44,7 @@ Definition chk_leaf (tol : Q) (c : cfg) (step : Z) (shape : list Z) (param grad 
                                       preconds_a 1 * maxabs_vec grad
                             / Qmax (maxabs_vec pg) (1 # 1000000000000000000000000000000)) in
     let tolp := tol * Qmin amp 1024 in
-    let '(u, s') := transform c step skip param grad pg sb in
+    let '(u, s') := transform c eps step skip param grad pg sb in
     (* sums such as beta1*m + w*u may cancel: tolerances are relative to the operands' scale *)
     let ops := Qmax (Qmax (maxabs_vec (s_mom sb)) (maxabs_vec (s_dmom sb)))
                     (Qmax (Qmax (maxabs_vec (s_mom s')) (maxabs_vec (s_dmom s')))
